@@ -917,6 +917,6 @@ META = dict(
         "mapset converters must construct and append exactly one target per source chart on every path; the four "
         "metadata roles must be assigned from the source; the source parameter must be free of mutation (A3); "
         "empty()/default frames must contain exactly the declared fields; and the copy in cast() must not align on "
-        "row labels (A4). The lookup tables used in both directions (keys <-> StepMania chart type, keys <-> Quaver mode, osu sample-set code <-> name) are extracted as finite tables (if-chains, dict lookups, search loops) and must satisfy back(fwd(k)) = k (R9)."),
+        "row labels (A4). The lookup tables used in both directions (keys <-> StepMania chart type, keys <-> Quaver mode, osu sample-set code <-> name) are extracted as finite tables (if-chains, dict lookups, search loops) and must satisfy back(fwd(k)) = k (R9). Every option a converter accepts is read (R12)."),
     not_decided="value equality is implied by the tables, not executed",
 )
